@@ -817,8 +817,39 @@ def gen_views(repo):
                  '%s: %s 2-D view, eval_s(i,j): (row, column) of the parent' % (V2, tag))
         G.define('gen_view2d_eval2_%s' % tag, '(f0 s0 f1 s1 N i j : Z)', '(Z * Z)', method(V2, cre2, nth, r'FASTOR_INLINE\s+SIMDVector<U,simd_abi_type>\s+eval\s*\(\s*FASTOR_INDEX\s+i\s*,\s*FASTOR_INDEX\s+j\s*\)\s*const\s*\{', subs2, e2, {}, '@vec'),
                  '%s: %s 2-D view, eval(i,j): (first offset, stride) of the loaded / gathered vector' % (V2, tag))
+    # ---- tensor/BlockIndexing.h: flat indices precomputed by the index-tensor overloads of operator()
+    BI = 'tensor/BlockIndexing.h'
+    batoms = [(r'_it0\s*\(\s*i\s*\)', 'a', 'n'), (r'_it1\s*\(\s*j\s*\)', 'b', 'n'), (r'_it0\s*\(\s*j\s*\)', 'b', 'n'),
+              (r'_seq::_step', 's', 'n'), (r'_seq::_first', 'f', 'n')]
+    names = ['it_it', 'it_num', 'num_it', 'it_fseq', 'fseq_it']
+    def bidx(k):
+        def fn():
+            txt = G.src(BI)
+            ms = list(re.finditer(r'tmp_it\s*\(\s*i\s*,\s*(?:j|0)\s*\)\s*=\s*([^;]+);', txt))
+            if len(ms) != 10: raise XErr('%d tmp_it assignments (10 expected: five overloads, non-const and const)' % len(ms))
+            t, _ = translate(ms[k].group(1), 'Z', {'NCols': ('ncols', 'n'), 'num': ('num', 'n'), 'i': ('i', 'n'), 'j': ('j', 'n')}, batoms)
+            return t
+        return fn
+    def bidx_axis(k):
+        def fn():
+            txt = G.src(BI)
+            ms = list(re.finditer(r'using\s+_seq\s*=\s*typename\s+to_positive\s*<\s*fseq<F,L,S>\s*,\s*(\w+)\s*>::type\s*;', txt))
+            if len(ms) != 4: raise XErr('%d normalised compile-time ranges (4 expected)' % len(ms))
+            ext = ms[k].group(1)
+            # the extent the range is normalised against: constexpr int <ext> = get_value<AXIS,Rest...>::value; in the same function
+            pre = txt[:ms[k].start()]
+            md = list(re.finditer(r'constexpr\s+int\s+%s\s*=\s*get_value\s*<\s*(\d)\s*,\s*Rest\.\.\.\s*>::value\s*;' % ext, pre))
+            if not md: raise XErr('extent %s not defined' % ext)
+            return md[-1].group(1)
+        return fn
+    for c, tag in enumerate(['nonconst', 'const']):
+        for k, nm in enumerate(names):
+            G.define('gen_bidx_%s_%s' % (nm, tag), '(a b num f s ncols i j : Z)', 'Z', bidx(5 * c + k), '%s: %s operator()(%s): flat index stored in tmp_it' % (BI, tag, nm))
+        G.define('gen_bidx_it_fseq_axis_%s' % tag, '', 'nat', bidx_axis(2 * c), '%s: %s operator()(it, fseq): axis (1-based) whose extent normalises the range' % (BI, tag))
+        G.define('gen_bidx_fseq_it_axis_%s' % tag, '', 'nat', bidx_axis(2 * c + 1), '%s: %s operator()(fseq, it): axis (1-based) whose extent normalises the range' % (BI, tag))
     hdr = ('(** GENERATED by lib/cxx2v.py from the C++ source of /repo on every run -- do not edit.\n'
-           '    Constructor normalisation and index computations of the dynamic 1-D / 2-D view classes. *)\n'
+           '    Constructor normalisation and index computations of the dynamic 1-D / 2-D view classes;\n'
+           '    flat indices precomputed by the index-tensor overloads of operator() (BlockIndexing.h). *)\n'
            'From Coq Require Import ZArith Bool.\n\n')
     return G, hdr + '\n'.join(G.defs)
 
